@@ -20,6 +20,13 @@ CHECKS = {
             "hold timeout / tap-repress window / concurrency setting; edge-cover replay binds L1 to the code; random schedules "
             "with gaps around H are recorded from the code and validated by TLC against P_C05.",
             "5 C05", TECH, BOUNDS),
+    "C06": ("model_checking",
+            "TLC checks L1 against the one-shot monitor P_C06 (second key never modified / nothing modified after the first "
+            "release / pcancel ends all / exact expiry tick and next-key modification in the sharp zone / never lingers) for "
+            "every schedule within the instance bounds per end-variant, timeout, rapid-event-delay, key or output-chord, 1-2 "
+            "one-shot keys; edge-cover replay binds L1 to the code; random schedules and a 20-fold stacked burst are recorded "
+            "from the code and validated by TLC against P_C06.",
+            "5 C06", TECH, BOUNDS + "; one-shot stack bounded to 3 in the exhaustive instances"),
 }
 
 NOT_APPLICABLE = {}
